@@ -95,6 +95,10 @@ def gen_workload(tape):
         if a is not None and b is not None:
             w["exclude_periods"].append(sorted([a, b]))
     w["exclude_via"] = tape.pick(["ctor", "methods"], "exvia")
+    # two caller threads share the FileSet (see props/c01.py)
+    w["two_callers"] = w["backend"] == "sim" and tape.flag("two_callers", 1, 6)
+    w["line_stride"] = 7 + tape.choice(40, "linestride") if w["two_callers"] else 0
+    w["store_stride"] = 1 + tape.choice(4, "storestride") if w["two_callers"] else 0
     return w
 
 
@@ -117,6 +121,9 @@ def gen_t(tape):
 
 
 class Run(C1.Run):
+    QUERIES = ("closest", "getitem")
+    PREFIX = "C16"
+
     def resolve_t(self, q, covs):
         res = F.resolution_td(self.t)
         kind, i, d = q
